@@ -780,15 +780,64 @@ class OptionalConverter(Generic[T, T_NP], JsonConverter[Optional[T], np.void]):
         return True
 
 
+def json_types(converter: JsonConverter[Any, Any]) -> list[type]:
+    """The types of the values that json.loads() yields for what the converter writes."""
+    if isinstance(converter, BoolConverter):
+        return [bool]
+    if isinstance(
+        converter, (StringConverter, DateConverter, TimeConverter, DateTimeConverter)
+    ):
+        return [str]
+    if isinstance(converter, EnumConverter):
+        return [int, float, str]
+    if isinstance(converter, FlagsConverter):
+        return [int, float, list]
+    if isinstance(
+        converter,
+        (
+            Complex32Converter,
+            Complex64Converter,
+            VectorConverter,
+            FixedVectorConverter,
+            FixedNDArrayConverter,
+        ),
+    ):
+        return [list]
+    if isinstance(converter, MapConverter):
+        return [dict] if isinstance(converter._key_converter, StringConverter) else [list]  # pyright: ignore [reportPrivateUsage]
+    if isinstance(converter, OptionalConverter):
+        return json_types(converter._element_converter)  # pyright: ignore [reportPrivateUsage]
+    if isinstance(converter, UnionConverter):
+        if not converter._simple:  # pyright: ignore [reportPrivateUsage]
+            return [dict]
+        return [t for c in converter._cases if c is not None for t in c[2]]  # pyright: ignore [reportPrivateUsage]
+    if converter.overall_dtype().kind in "iuf":
+        return [int, float]
+    # records, arrays whose shape is written with them
+    return [dict]
+
+
 class UnionConverter(JsonConverter[T, np.object_]):
     def __init__(
         self,
         union_type: type,
-        cases: list[Optional[tuple[type, JsonConverter[Any, Any], list[type]]]],
-        simple: bool,
+        cases: list[
+            Optional[tuple[type, JsonConverter[Any, Any], Optional[list[type]]]]
+        ],
+        simple: Optional[bool],
     ) -> None:
         super().__init__(np.object_)
         self._union_type = union_type
+        # a case that is a generic type parameter comes without its JSON types, and the
+        # union without the decision whether its values need tags: what the parameter
+        # stands for is known only now, from the converter that was passed in
+        cases = [
+            c if c is None or c[2] is not None else (c[0], c[1], json_types(c[1]))
+            for c in cases
+        ]
+        if simple is None:
+            all_types = [t for c in cases if c is not None for t in c[2]]  # type: ignore
+            simple = len(all_types) == len(set(all_types))
         self._cases = cases
         self._simple = simple
         self._offset = 1 if cases[0] is None else 0
